@@ -46,15 +46,20 @@ func (l *DNSNameUnderscoreInTRD) CheckApplies(c *x509.Certificate) bool {
 }
 
 func (l *DNSNameUnderscoreInTRD) Execute(c *x509.Certificate) *lint.LintResult {
+	sawParseError := false
 	parsedSANDNSNames := c.GetParsedDNSNames(false)
 	for i := range c.GetParsedDNSNames(false) {
 		if parsedSANDNSNames[i].ParseError != nil {
-			return &lint.LintResult{Status: lint.NA}
+			sawParseError = true
+			continue
 		}
 		if strings.Contains(parsedSANDNSNames[i].ParsedDomain.TRD, "_") {
 			return &lint.LintResult{Status: lint.Warn}
 		}
 	}
 
+	if sawParseError {
+		return &lint.LintResult{Status: lint.NA}
+	}
 	return &lint.LintResult{Status: lint.Pass}
 }
